@@ -21,6 +21,18 @@ func (k *Keys) GetCursorPos() (x, y int) {
 	var cursor []byte
 	var match [][]string
 
+	// Let the input loop know that someone wants the next report: it
+	// must not wait to hand over a report that nobody has asked for.
+	k.mutex.Lock()
+	k.queries++
+	k.mutex.Unlock()
+
+	defer func() {
+		k.mutex.Lock()
+		k.queries--
+		k.mutex.Unlock()
+	}()
+
 	// Echo the query and wait for the main key
 	// reading routine to send us the response back.
 	fmt.Print("\x1b[6n")
@@ -122,7 +134,13 @@ func (k *Keys) readInputFiltered() (keys []byte, err error) {
 	// If found, strip it and keep the remaining keys.
 	cursor, keys := k.extractCursorPos(buf[:read])
 
-	if len(cursor) > 0 {
+	// A report that nobody is waiting for (it arrives after its query was
+	// given up, or was never asked) is dropped, or we would block for ever.
+	k.mutex.RLock()
+	wanted := k.queries > 0
+	k.mutex.RUnlock()
+
+	if len(cursor) > 0 && wanted {
 		YieldPoint("report.handoff.before")
 		k.cursor <- cursor
 		YieldPoint("report.handoff.after")
